@@ -71,8 +71,14 @@ def values(ctx):
 def xml_guards(ctx, d, P):
     """the quantifier's exclusions"""
     # prov:label values are plain or language-tagged strings
+    ctx.assume(DS.VALUE_KINDS[P["vk"]] != "xsd_qname_literal")  # the quantifier excludes literals typed xsd:QName
     if DS.ATTR_NAMES[P["attr"]] == "prov:label":
         ctx.assume(DS.VALUE_KINDS[P["vk"]] in ("str", "lang_literal", "empty_str", "big_text"))
+
+
+def twin_bundles(ctx):
+    stub_logging_str(ctx)
+    _check(ctx, DS.twin_bundles_doc(ctx))
 
 
 def structure(ctx):
@@ -83,9 +89,9 @@ def structure(ctx):
 
 
 SUBTYPES = ["Revision", "Quotation", "PrimarySource", "SoftwareAgent", "Person", "Organization", "Plan", "Collection",
-            "EmptyCollection", "Bundle"]
+            "EmptyCollection", "Bundle", "Entity", "Agent", "Derivation", "Activity"]
 SUBTYPE_BASE = {"Revision": 8, "Quotation": 8, "PrimarySource": 8, "SoftwareAgent": 9, "Person": 9, "Organization": 9,
-                "Plan": 0, "Collection": 0, "EmptyCollection": 0, "Bundle": 0}
+                "Plan": 0, "Collection": 0, "EmptyCollection": 0, "Bundle": 0, "Entity": 0, "Agent": 9, "Derivation": 8, "Activity": 1}
 
 
 def subtypes(ctx):
@@ -117,7 +123,9 @@ def _value_shards(tier):
     out = []
     for x in vs(tier):
         x = dict(x, prefix_kind="name")
-        if DS.ATTR_NAMES[x["attr"]] == "prov:label" and DS.VALUE_KINDS[x["vk"]] not in ("str", "lang_literal", "empty_str", "big_text"):
+        if DS.VALUE_KINDS[x["vk"]] == "xsd_qname_literal":
+            continue
+        if DS.ATTR_NAMES[x["attr"]] == "prov:label" and DS.VALUE_KINDS[x["vk"]] not in ("str", "lang_literal", "empty_str", "big_text", "hostile_str", "hostile_lang_literal", "lang_literal_mixed_case_tag"):
             continue
         out.append(x)
     return out
@@ -139,6 +147,10 @@ _SHIMS = ["lxml.etree build API replaced by a recorder in Stage A; the real lxml
 PRELOAD = ("prov.model", "prov.serializers.provxml", "prov.serializers.provjson")
 
 OBLIGATIONS = [
+    Obligation(name="twin_bundles", fn=twin_bundles, shards=[{}],
+               desc="sibling bundles binding one prefix to different URIs (+ empty bundle) through the XML writer and reader",
+               bounds="2-3 bundles; URIs |u|<=3", assumptions=_ASSUME, functions=_FUNCS, shims=_SHIMS, best_verdict="PATH_COMPLETE",
+               budget_s=(150, 600), per_path_s=(30, 60)),
     Obligation(name="values", fn=values, shards=_value_shards,
                desc="Stage A exhausts the paths of the XML writer for one entity with one attribute (6 name classes x 15 value kinds x 5 namespace modes x force_types), the "
                     "solver choosing contents that reach each branch (empty text, 'prov:'-prefixed text, ...); Stage B serialises every witness with real lxml, reads it back and compares strictly",
@@ -152,5 +164,5 @@ OBLIGATIONS = [
                desc="prov:type values naming a PROV subtype (Revision ... Bundle) select the subtype element; with further prov:type values (another subtype, a plain string) and "
                     "other attributes the record must come back as the same base record with the same prov:type set",
                bounds="one record, 1-3 prov:type values, optional extra attribute, force_types both", assumptions=_ASSUME, functions=_FUNCS, shims=_SHIMS,
-               best_verdict="PATH_COMPLETE", budget_s=(100, 300), per_path_s=(30, 60)),
+               best_verdict="PATH_COMPLETE", budget_s=(240, 600), per_path_s=(30, 60)),
 ]
